@@ -73,11 +73,23 @@ def main():
         os.remove(out)
     opts = runs.options(solve_time=cfg.get("T", 0.2), dt_init=cfg.get("dt", 5e-3), dt_max=5e-2, adaptive=cfg.get("adaptive", False), adaptive_window=2,
                         save_every=3, output_file=out, include_screening=cfg.get("screening", False), screening_tolerance=1e-3)
-    sol = tdgl.solve(dev, opts, applied_vector_potential=A, terminal_currents=cur)
+    seed = None
+    if cfg.get("seeded"):
+        # a short run whose final state seeds the runs that are compared (the seed object is reused below)
+        seed = tdgl.solve(dev, runs.options(solve_time=0.03, dt_init=cfg.get("dt", 5e-3), adaptive=False, save_every=3, include_screening=cfg.get("screening", False),
+                                            screening_tolerance=1e-3), applied_vector_potential=A, terminal_currents=cur)
+    sol = tdgl.solve(dev, opts, applied_vector_potential=A, terminal_currents=cur, seed_solution=seed)
     if out:
         res["file"] = hash_file(sol.path)
-    res["final"] = {k: sha(getattr(sol.tdgl_data, k)) for k in ("psi", "mu", "supercurrent", "normal_current", "induced_vector_potential")}
+    fin = lambda s_: {k: sha(getattr(s_.tdgl_data, k)) for k in ("psi", "mu", "supercurrent", "normal_current", "induced_vector_potential")}
+    res["final"] = fin(sol)
     res["dt"] = sha(sol.dynamics.dt)
+    # "repeating a simulation with identical inputs": once more in this same process, with the same objects
+    import dataclasses
+    opts2 = dataclasses.replace(opts, output_file=None)
+    sol2 = tdgl.solve(dev, opts2, applied_vector_potential=A, terminal_currents=cur, seed_solution=seed)
+    res["repeat_in_process"] = {"final": fin(sol2), "dt": sha(sol2.dynamics.dt)}
+    res["first_in_process"] = {"final": fin(sol), "dt": res["dt"]}
     # the parallel kernels on a fixed random input
     from tdgl.solver.screening import get_A_induced_numba
     from tdgl import distance
